@@ -556,7 +556,9 @@ class SourceGenerator(NodeVisitor):
             # not a literal
             self.write(repr(node.value).replace("inf", "1e309"))
         else:
-            self.write(repr(node.value))
+            # a module is written in the encoding of its template: keep the
+            # re-generated literal within ASCII
+            self.write(ascii(node.value))
 
     def visit_Tuple(self, node):
         self.write("(")
